@@ -61,7 +61,7 @@ static struct {
 } S;
 
 enum { CV_ACQ = 0, CV_ACQ_SLEPT, CV_TRY_OK, CV_TRY_FAIL, CV_CVWAIT_0, CV_CVWAIT_TO, CV_CVWAIT_CANCEL, CV_MUWAIT_0, CV_MUWAIT_TO, CV_MUWAIT_CANCEL,
-       CV_WAITN_READY, CV_WAITN_TO, CV_WAIT_SLEPT, CV_COND_EVALS, CV_DEBUG_CALLS, CV_NOWAKE, CV_SECTIONS, CV_UNTIMED, CV_CHURN, CV_IDLE, CV_QEPI };
+       CV_WAITN_READY, CV_WAITN_TO, CV_WAIT_SLEPT, CV_COND_EVALS, CV_DEBUG_CALLS, CV_NOWAKE, CV_SECTIONS, CV_UNTIMED, CV_CHURN, CV_IDLE, CV_QEPI, CV_DEBUG_IN_COND };
 
 /* ---- oracles ----------------------------------------------------------------------- */
 static void enter (int writer, const char *how) {
@@ -88,18 +88,26 @@ static void enter (int writer, const char *how) {
 }
 static void leave (int writer) { if (writer) sc_dec (&S.W); else sc_dec (&S.R); }
 
+static __thread int in_debug;       /* this thread is inside a debug-state call */
 static void word_cb (int idx, int op, uint32_t old_v, uint32_t new_v, int ok) {
 	(void) idx; (void) op; (void) old_v;
 	if (ok && (new_v & SC_MU_WLOCK) != 0 && (new_v & SC_MU_RLOCK_FIELD) != 0)
 		rt_violation ("exclusion-word", "wlock-and-readers", "mutex word %#x written with both the writer bit and a reader count (old %#x)", new_v, old_v);
+	/* C16: the debug-state functions only observe: apart from taking and releasing the queue spinlock they leave the word alone */
+	if (ok && in_debug && op <= 4 && ((old_v ^ new_v) & ~2u) != 0)
+		rt_violation ("debug-modified-word", "nsync_mu_debug_state_and_waiters", "a debug-state call changed the mutex word from %#x to %#x (more than the queue spinlock bit)", old_v, new_v);
 }
 
+static void debug_calls (int which, char *buf, int n);
 static void cond_ctx (void) {
 	int w = sc_get (&S.W);
 	uint32_t word = sc_word (&S.mu.word);
 	rt_cover (CV_COND_EVALS);
 	if (w != 0) rt_violation ("cond-during-write", "callback", "a wait condition was evaluated while %d other thread(s) are inside a write section (word=%#x)", w, word);
 	if ((word & SC_MU_ANY_LOCK) == 0) rt_violation ("cond-unheld", "callback", "a wait condition was evaluated while the mutex word %#x shows no holder", word);
+	/* a debug-state call made from inside a condition (the evaluating thread holds the mutex, the queue spinlock is free and the queue
+	   has been swapped into the unlocker's private list): no RT_OP, the enclosing operation's accounting must stay intact */
+	if (S.debug_on && rt_rand_n (6) == 0) { char buf[120]; rt_cover (CV_DEBUG_IN_COND); debug_calls ((int) rt_rand_n (2), buf, (int) rt_rand_n (120)); }
 }
 static int cond_nz (const void *p) { cond_ctx (); return (*(const int *) p != 0); }
 static int cond_nz2 (const void *p) { cond_ctx (); return (*(const int *) p != 0); }
@@ -125,15 +133,21 @@ static void check_reason (const char *api, int res, int timed, nsync_time dl, ns
 }
 
 /* ---- actions ----------------------------------------------------------------------- */
-static void do_debug (void) {
-	char buf[200]; int n = (int) rt_rand_n (200);
-	rt_cover (CV_DEBUG_CALLS);
-	switch (rt_rand_n (4)) {
-	case 0: RT_OP ("nsync_mu_debug_state", nsync_mu_debug_state (&S.mu, buf, n)); break;
-	case 1: RT_OP ("nsync_mu_debug_state_and_waiters", nsync_mu_debug_state_and_waiters (&S.mu, buf, n)); break;
-	case 2: RT_OP ("nsync_cv_debug_state", nsync_cv_debug_state (&S.cv[rt_rand_n (NCV)], buf, n)); break;
-	default: RT_OP ("nsync_cv_debug_state_and_waiters", nsync_cv_debug_state_and_waiters (&S.cv[rt_rand_n (NCV)], buf, n)); break;
+static void debug_calls (int which, char *buf, int n) {
+	in_debug = 1;
+	switch (which) {
+	case 0: nsync_mu_debug_state (&S.mu, buf, n); break;
+	case 1: nsync_mu_debug_state_and_waiters (&S.mu, buf, n); break;
+	case 2: nsync_cv_debug_state (&S.cv[rt_rand_n (NCV)], buf, n); break;
+	default: nsync_cv_debug_state_and_waiters (&S.cv[rt_rand_n (NCV)], buf, n); break;
 	}
+	in_debug = 0;
+}
+static void do_debug (void) {
+	static const char *const dn[4] = { "nsync_mu_debug_state", "nsync_mu_debug_state_and_waiters", "nsync_cv_debug_state", "nsync_cv_debug_state_and_waiters" };
+	char buf[200]; int n = (int) rt_rand_n (200), which = (int) rt_rand_n (4);
+	rt_cover (CV_DEBUG_CALLS);
+	RT_OP (dn[which], debug_calls (which, buf, n));
 }
 
 /* returns 1 if the action changed condition state */
@@ -494,7 +508,7 @@ static void pinit (void) {
 	rt_cover_name (CV_CVWAIT_0, "cvwait_woken"); rt_cover_name (CV_CVWAIT_TO, "cvwait_timedout"); rt_cover_name (CV_CVWAIT_CANCEL, "cvwait_cancelled");
 	rt_cover_name (CV_MUWAIT_0, "muwait_true"); rt_cover_name (CV_MUWAIT_TO, "muwait_timedout"); rt_cover_name (CV_MUWAIT_CANCEL, "muwait_cancelled");
 	rt_cover_name (CV_WAITN_READY, "waitn_ready"); rt_cover_name (CV_WAITN_TO, "waitn_timedout"); rt_cover_name (CV_WAIT_SLEPT, "waits_that_slept");
-	rt_cover_name (CV_COND_EVALS, "condition_evaluations"); rt_cover_name (CV_DEBUG_CALLS, "debug_calls"); rt_cover_name (CV_NOWAKE, "unlock_without_wakeup");
+	rt_cover_name (CV_COND_EVALS, "condition_evaluations"); rt_cover_name (CV_DEBUG_CALLS, "debug_calls"); rt_cover_name (CV_DEBUG_IN_COND, "debug_calls_made_inside_a_condition_evaluation"); rt_cover_name (CV_NOWAKE, "unlock_without_wakeup");
 	rt_cover_name (CV_SECTIONS, "sections"); rt_cover_name (CV_UNTIMED, "untimed_waits"); rt_cover_name (CV_CHURN, "short_lived_threads"); rt_cover_name (CV_IDLE, "idle_instants_checked"); rt_cover_name (CV_QEPI, "quiescent_instants_checked_before_an_epilogue");
 }
 
